@@ -63,6 +63,7 @@ void harness(void)
     uint8_t adv[36];
     in_bytes(adv, 36);
 
+    if (step == 2) vfd_set_disc_reason(st[VFD_DISC_REASON]);      /* whatever an earlier connection left behind */
     if (step != 2) {
         const int map_ok = vfd_set_channel_map(FULL_MAP, hop);
         CHECK(map_ok, "a full channel map is accepted");
